@@ -214,6 +214,14 @@ def _prune_cache(keep):
 
 
 # --------------------------------------------------------------------- model
+_MIRROR = bool(os.environ.get('OFVERIF_MIRROR'))
+_NEGATE = bool(os.environ.get('OFVERIF_NEGATE'))
+_NEG_PRED = {'eq': 'ne', 'ne': 'eq', 'ult': 'uge', 'uge': 'ult', 'ugt': 'ule', 'ule': 'ugt', 'slt': 'sge', 'sge': 'slt',
+             'sgt': 'sle', 'sle': 'sgt'}
+_SWAP_PRED = {'eq': 'eq', 'ne': 'ne', 'ult': 'ugt', 'ugt': 'ult', 'ule': 'uge', 'uge': 'ule', 'slt': 'sgt', 'sgt': 'slt',
+              'sle': 'sge', 'sge': 'sle'}
+
+
 class V(object):
     """An operand: k in i(nst) a(rg) c(onst int) cf null undef g(lobal) f(unction)
     ce (constant expression) b(lock) data zero agg other."""
@@ -388,6 +396,11 @@ class Function(object):
                         i.ops.append(i.calleev)
                 else:
                     i.ops = [V(o, self) for o in idd.get('ops', [])]
+                if _MIRROR and i.op == 'icmp' and len(i.ops) == 2 and i.ops[1].k not in ('c', 'null'):
+                    # checker self-test (tools/metamorphic.py): every comparison between two non-constant operands spelt the
+                    # other way round (a < b  ->  b > a) means the same program; no verdict may change
+                    i.ops = [i.ops[1], i.ops[0]]
+                    i.pred = _SWAP_PRED.get(i.pred, i.pred)
                 if i.path:
                     for st in i.path:
                         if 'idx' in st:
@@ -430,6 +443,17 @@ class Function(object):
             self.loops[ld['header']] = l
         for l in self.loops.values():
             l.parent = self.loops.get(l.parent) if l.parent is not None else None
+        if _NEGATE:
+            # checker self-test (tools/metamorphic.py): `if (a < b) X else Y` spelt `if (a >= b) Y else X` is the same program
+            for b in self.blocks:
+                t = b.insts[-1] if b.insts else None
+                if t is None or t.op != 'br' or len(t.ops) != 3 or len(b.succs) != 2 or b.succs[0] is b.succs[1]:
+                    continue
+                c = t.ops[0]
+                if c.k == 'i' and c.inst is not None and c.inst.op == 'icmp' and len(c.inst.users) == 1:
+                    c.inst.pred = _NEG_PRED[c.inst.pred]
+                    b.succs = [b.succs[1], b.succs[0]]
+                    t.ops = [t.ops[0], t.ops[2], t.ops[1]]
         self._number_dom()
 
     def _resolve_ops(self, user, ops):
